@@ -70,8 +70,13 @@ def fpeEq (a b : Rat) : Bool := decide (RV.F64.absQ (a - b) < 1 / 10000000000000
 def prune (rule : PruneRule) (now : Rat) (q : List Imp) : List Imp :=
   q.filter fun i => decide (now < i.time) || (rule == .keepIfEqual && fpeEq i.time now)
 
-/-- is `i` the first entry of `q` with its time? (scipy records only the earliest terminal event
-of an integration stop; coincident impulses behind it are never applied) -/
+/-- impulses of one agent that share their instant: the solver reports one terminal event per stop.
+`.all` (repaired): the propagator also applies the scheduled events whose root is that same instant;
+`.firstOnly` (unrepaired): coincident impulses behind the first are never applied. -/
+inductive TieRule | all | firstOnly
+deriving Repr, DecidableEq
+
+/-- is `i` the first entry of `q` with its time? -/
 def firstWithTime (q : List Imp) (i : Imp) : Bool :=
   match q.find? (fun j => j.time == i.time) with
   | some j => j.id == i.id
@@ -81,8 +86,8 @@ def firstWithTime (q : List Imp) (i : Imp) : Bool :=
 event function `t - time` has a root in the call — `t0 < time ≤ t1`, or `time ≈ t0` when such an
 entry survived pruning (the event function is 0 at the first instant: scipy counts that as a
 crossing). -/
-def fire (t0 t1 : Rat) (q : List Imp) : List Nat :=
-  (q.filter fun i => (decide (t0 < i.time) || fpeEq i.time t0) && decide (i.time ≤ t1) && firstWithTime q i).map (·.id)
+def fire (t0 t1 : Rat) (q : List Imp) (tie : TieRule := .all) : List Nat :=
+  (q.filter fun i => (decide (t0 < i.time) || fpeEq i.time t0) && decide (i.time ≤ t1) && (tie == .all || firstWithTime q i)).map (·.id)
 
 structure Agent where
   queue : List Imp
@@ -92,13 +97,14 @@ deriving Repr
 /-- one scenario step for one agent: events delivered this step are appended (`handleEvent` →
 `appendPropagateEvent`), the queue is pruned when the propagation job is generated (agent time =
 start of the step), and the propagator applies what falls inside the step. -/
-def stepAgent (rule : PruneRule) (tPrev tNow : Rat) (delivered : List Imp) (a : Agent) : Agent :=
+def stepAgent (rule : PruneRule) (tPrev tNow : Rat) (delivered : List Imp) (a : Agent) (tie : TieRule := .all) : Agent :=
   let q := prune rule tPrev (a.queue ++ delivered)
-  { queue := q, fired := a.fired ++ fire tPrev tNow q }
+  { queue := q, fired := a.fired ++ fire tPrev tNow q tie }
 
 /-- a whole run: step `k` (1-based) goes from `t (k-1)` to `t k` and receives `deliveries k` -/
-def runAgent (rule : PruneRule) (t : Nat → Rat) (deliveries : Nat → List Imp) : Nat → Agent
+def runAgent (rule : PruneRule) (t : Nat → Rat) (deliveries : Nat → List Imp) (n : Nat) (tie : TieRule := .all) : Agent :=
+  match n with
   | 0 => ⟨[], []⟩
-  | k + 1 => stepAgent rule (t k) (t (k + 1)) (deliveries (k + 1)) (runAgent rule t deliveries k)
+  | k + 1 => stepAgent rule (t k) (t (k + 1)) (deliveries (k + 1)) (runAgent rule t deliveries k tie) tie
 
 end RV.Events
